@@ -305,7 +305,7 @@ func (fc *FnCtx) execInstr(s *State, fn *ssa.Function, in ssa.Instruction) {
 }
 
 // value structs are small structs handled by value in local cells (no heap identity)
-func isValueStruct(sname string) bool { return sname == "magic" }
+func isValueStruct(sname string) bool { return sname == "magic" || sname == "ErrNaN" }
 
 func (fc *FnCtx) newObject(s *State, sname string, st *types.Struct, why string) *Term {
 	a := fc.fresh("obj_"+sname, SInt)
